@@ -39,6 +39,11 @@ var c16Files = Files{
 	"tr.vuego":                 `<template><b v-once>OT</b><i>t</i></template><u v-once>OU</u>`,
 	"p_tmplroot.vuego":         `<template include="tr.vuego"></template><template include="tr.vuego"></template>`,
 	"p_tmplroot1.vuego":        `<div><template include="tr.vuego"></template></div>`,
+	"p_elseonce.vuego":         `<div v-for="i in three"><p v-if="i == 9">z</p><p v-else v-once>OE</p><p v-if="i == 9">z</p><p v-else-if="i < 5" v-once>OE2</p></div>`,
+	"p_forelseonce.vuego":      `<div v-for="i in three"><p v-for="x in none">x</p><p v-else v-once>OF</p></div>`,
+	"p_ifonce.vuego":           `<div v-for="i in three"><p v-once v-if="i == 1">OI</p></div>`,
+	"p_layslot.vuego":          "---\nlayout: once_slots\n---\n<template #side><p v-once>LA</p><p v-once>LB</p></template><i>body</i>",
+	"layouts/once_slots.vuego": `<main><aside><slot name="side"></slot></aside><div v-html="content"></div></main>`,
 	"p_top.vuego":              `<b v-once>O1</b><p>x</p><b v-once>O2</b><b v-once>O3</b>`,
 	"p_for.vuego":              `<div v-for="i in three"><b v-once>O1</b><i>{{ i }}</i><u v-once>O2</u></div>`,
 	"p_forself.vuego":          `<b v-for="i in three" v-once>O1</b><i v-for="j in three">I</i>`,
@@ -76,6 +81,10 @@ var c16Progs = []c16Prog{
 	{"nestcomp", "p_nestcomp.vuego", map[string]int{"N1W": 1, "N1S": 1, "N2W": 1, "N2S": 1}, nil},
 	{"tmplroot", "p_tmplroot.vuego", map[string]int{"OT": 1, "OU": 1}, nil},
 	{"tmplroot1", "p_tmplroot1.vuego", map[string]int{"OT": 1, "OU": 1}, nil},
+	{"elseonce", "p_elseonce.vuego", map[string]int{"OE": 1, "OE2": 1}, nil},
+	{"forelseonce", "p_forelseonce.vuego", map[string]int{"OF": 1}, nil},
+	{"ifonce", "p_ifonce.vuego", map[string]int{"OI": 1}, nil},
+	{"layslot", "p_layslot.vuego", nil, map[string]int{"LA": 2, "LB": 2}}, // once in the page content, once in the layout slot
 	{"lay", "p_lay.vuego", map[string]int{"O1": 1, "OA": 1}, map[string]int{"OL": 1, "OL2": 1, "OO": 1, "OA": 2}},
 }
 
@@ -95,7 +104,7 @@ type c16Case struct {
 
 func (c *c16Case) Key() string { return core.KeyOf(c) }
 
-var c16Markers = []string{"OT", "OU", "OW", "ON", "N1W", "N1S", "N2W", "N2S", "O1", "O2", "O3", "OA", "OB2", "OB", "OC", "OAC", "OS", "OL2", "OL", "OO"}
+var c16Markers = []string{"OE2", "OE", "OF", "OI", "LA", "LB", "OT", "OU", "OW", "ON", "N1W", "N1S", "N2W", "N2S", "O1", "O2", "O3", "OA", "OB2", "OB", "OC", "OAC", "OS", "OL2", "OL", "OO"}
 
 func c16Count(out string) map[string]int {
 	m := map[string]int{}
@@ -108,7 +117,7 @@ func c16Count(out string) map[string]int {
 
 func (c *c16Case) Run(ctx *core.Ctx) {
 	ctx.NonTrivial()
-	data := map[string]any{"three": []int{0, 1, 2}, "t": true}
+	data := map[string]any{"three": []int{0, 1, 2}, "t": true, "none": []int{}}
 	tpl := vuego.NewFS(c16Files.FS())
 	vue := vuego.NewVue(c16Files.FS())
 	for i, name := range c.Seq {
@@ -139,6 +148,9 @@ func (c *c16Case) Run(ctx *core.Ctx) {
 		}
 		where := p.Name + "/" + c.Entry
 		trig := fmt.Sprintf("render#%d", min(i, 1))
+		if p.Want == nil && !withLayout {
+			continue // the program only has a meaning through its layout
+		}
 		if err != nil {
 			ctx.Violation("render-error", where, trig, fmt.Sprintf("seq %v: %v", c.Seq[:i+1], err))
 			return
@@ -174,7 +186,7 @@ func init() {
 	core.Register(&core.Check{
 		ID:    "C16",
 		Level: "model_checking",
-		Rule: "19 placements of 1-4 v-once elements (v-once nested inside v-once at top level, in a loop and in two components included from a loop, in a component whose root is a <template> tag (inside and after it), top level, inside v-for, on the looped element itself, in a component included 1..3 times, in two different components, in a component included from a loop, nested components, slot content used once / twice / in a loop, v-if branches, page + two layouts each including the same component) x 7 entry points (Load+Render, RenderFile, Vue.Render, Vue.RenderFragment, RenderString/Byte/Reader) x every history of <=L renders on one long-lived engine; " +
+		Rule: "23 placements of 1-4 v-once elements (v-once nested inside v-once at top level, in a loop and in two components included from a loop, in a component whose root is a <template> tag (inside and after it), on v-else / v-else-if members and on the v-else of an empty v-for inside a loop, together with v-if, in slot content a page hands to its layout, top level, inside v-for, on the looped element itself, in a component included 1..3 times, in two different components, in a component included from a loop, nested components, slot content used once / twice / in a loop, v-if branches, page + two layouts each including the same component) x 7 entry points (Load+Render, RenderFile, Vue.Render, Vue.RenderFragment, RenderString/Byte/Reader) x every history of <=L renders on one long-lived engine; " +
 			"oracle: every marked source element occurs exactly once per render (per link of a layout chain), unreached ones zero times. states = renders checked; non-trivial = all",
 		Bounds:      map[string]string{"quick": "L=2 (all ordered pairs of programs)", "thorough": "L=3 (all ordered triples)"},
 		Assumptions: []string{"markers are counted textually as >MARK< in the output"},
